@@ -6,12 +6,15 @@ libraries' data model (listed in the evidence); class hierarchies themselves are
 import griffe.dataclasses  # noqa: F401
 import griffe  # noqa: F401
 from typing import Sequence  # noqa: F401
+import argparse  # noqa: F401
 import io  # noqa: F401
 import pathlib  # noqa: F401
 import mypy.nodes as mp_nodes  # noqa: F401
 import mypy.types as mp_types  # noqa: F401
 from mypy.nodes import ArgKind  # noqa: F401
 from safeds_stubgen.api_analyzer._api import API  # noqa: F401
+from safeds_stubgen.api_analyzer import TypeSourcePreference, TypeSourceWarning  # noqa: F401
+from safeds_stubgen.docstring_parsing import DocstringStyle  # noqa: F401
 from safeds_stubgen.stubs_generator._helper import NamingConvention  # noqa: F401
 
 SCHEMA = {
@@ -27,6 +30,9 @@ SCHEMA = {
 }
 
 SCHEMA.update({
+    "argparse.Namespace": {"src": "pathlib.Path", "out": "pathlib.Path", "testrun": "bool", "naming_convert": "bool",
+                           "verbose": "bool", "docstyle": "DocstringStyle", "type_source_preference": "TypeSourcePreference",
+                           "show_type_source_warning": "TypeSourceWarning"},
     "pathlib.PurePath": {"stem": "str", "name": "str", "parts": "Sequence[str]"},
     "_griffe.expressions.Expr": {"canonical_path": "str", "canonical_name": "str"},
     "_griffe.expressions.ExprSubscript": {"slice": "griffe.Expr | str", "left": "griffe.Expr | str"},
@@ -38,6 +44,7 @@ SCHEMA.update({
 
 # assumed result shapes of external functions (otherwise their results are unconstrained values)
 EXTERNAL_RETURNS = {
+    "pathlib.Path.resolve": "pathlib.Path",
     "pathlib.Path.open": "io.TextIOWrapper",
     "pathlib.Path.exists": "bool",
     "griffe.docstrings.utils.parse_annotation": "griffe.Expr | str",
